@@ -235,3 +235,55 @@ theorem deliver_sound (top : Bytes) (nodes : List NodeM) (nch : Nat → Nat → 
       exact ⟨nd, p, nm, ch, u, file, hn, hfq, hp, hf, hs, hsl, rfl⟩
 
 end Martian.ForkName
+
+namespace Martian.ForkName
+
+/-! ## The hypotheses of the batch theorems as executable checks (evaluated by the driver on every real batch) -/
+
+def slotValidB (nchunks : Nat) (r : JobRec) : Bool :=
+  match r.slot with
+  | .chunk i => decide (i < nchunks) && fileOK r.file
+  | .split => fileOK (sSplitU ++ r.file)
+  | .join => fileOK (sJoinU ++ r.file)
+  | .own => fileOK r.file && !startsWith sSplitU r.file && !startsWith sJoinU r.file
+
+def validJobB (top : Bytes) (nodes : List NodeM) (nch : Nat → Nat → Nat) (r : JobRec) : Bool :=
+  (match nodes[r.node]? with
+   | some nd => nd.fqid == top ++ cDot :: r.path && decide nd.forks.Nodup && nd.forks[r.fork]? == some r.forkName
+   | none => false) &&
+  !r.path.isEmpty && nodes.all (fun m => m.fqid != r.path) &&
+  !r.forkName.isEmpty && r.forkName.all (· != cDot) &&
+  (match r.uniq with | some u => u.length == 10 && u.all isLowerHex | none => true) &&
+  slotValidB (nch r.node r.fork) r
+
+def treeOkB (nodes : List NodeM) : Bool := decide (nodes.map (·.fqid)).Nodup
+
+theorem slotValidB_sound (n : Nat) (r : JobRec) (h : slotValidB n r = true) : slotValid n r := by
+  unfold slotValidB at h
+  unfold slotValid
+  cases hs : r.slot <;> simp_all
+
+theorem validJobB_sound (top : Bytes) (nodes : List NodeM) (nch : Nat → Nat → Nat) (r : JobRec)
+    (h : validJobB top nodes nch r = true) : ValidJob top nodes nch r := by
+  unfold validJobB at h
+  simp only [Bool.and_eq_true] at h
+  obtain ⟨⟨⟨⟨⟨⟨h1, h2⟩, h3⟩, h4⟩, h5⟩, h6⟩, h7⟩ := h
+  refine ⟨?_, ?_, ?_, ?_, ?_, ?_, slotValidB_sound _ _ h7⟩
+  · cases hn : nodes[r.node]? with
+    | none => simp [hn] at h1
+    | some nd =>
+      simp only [hn, Bool.and_eq_true, beq_iff_eq, decide_eq_true_eq] at h1
+      exact ⟨nd, rfl, h1.1.1, h1.1.2, h1.2⟩
+  · intro e; simp [e] at h2
+  · intro m hm
+    have := List.all_eq_true.mp h3 m hm
+    simpa using this
+  · intro e; simp [e] at h4
+  · intro c hc
+    have := List.all_eq_true.mp h5 c hc
+    simpa using this
+  · intro u hu
+    simp only [hu, Bool.and_eq_true, beq_iff_eq] at h6
+    exact h6
+
+end Martian.ForkName
